@@ -20,8 +20,10 @@ func init() {
 			"DeferredResult on every path, built from a context made by WithFreshResponseContext(dg.Context), dispatched on that context and carrying GetErrors of that same context; the response closure receives only " +
 			"under pendingDeferred > 0 and decrements once per received result; every object function adds len(deferred) to the deferred counter before the loop that starts exactly the groups of that map, and only " +
 			"after the Invalids test of the object itself; hasNext is read from pendingDeferred after the payload was marshalled; (deferred-slot) a field routed to a deferred set gets graphql.Null in the parent's " +
-			"slot and is not also scheduled on the parent set; a deferred set's Invalids nulls only that group's result.",
-		NotDecided:  "equality of the merged payloads with the plain result, ordering of nested groups (schedule-level), evaluation of @defer's if/label arguments (collectFields, value-level)",
+			"slot and is not also scheduled on the parent set; a deferred set's Invalids nulls only that group's result; (defer-noninterference) in graphql.collectFields and the same-package functions it calls, the " +
+			"outcome of deferrable() and the Deferrable mark of a collected field influence nothing but the Deferrable mark: no store into a CollectedField, the grouped-field slice, a selection set or the visited map is " +
+			"control dependent on, or computed from, such a value (information-flow analysis over SSA with control dependence and call-site propagation), so the selections collected for every field are the same with and without @defer.",
+		NotDecided:  "equality of the merged payloads with the plain result, ordering of nested groups (schedule-level), evaluation of @defer's if/label arguments inside deferrable() (value-level)",
 		Assumptions: []string{"atomic counters and channel semantics"},
 	})
 }
@@ -282,6 +284,8 @@ func runC13(c *Ctx) {
 	if nslots < 20 {
 		c.R.Fail("deferred-slot examined only %d deferred-capable fields", nslots)
 	}
+
+	c13DeferNonInterference(c)
 }
 
 func factsHaveDeferrable(call ssa.CallInstruction) bool {
